@@ -106,6 +106,22 @@ def run(ctx, driver):
                 ctx.violation(dict(case, use_power=power), want, g,
                               "coefficient == sum over the full DFT spectrum of |X*H|^p, H rebuilt from the truncated response",
                               tags=dict(clause="full_spectrum_sum", Dmod4=D % 4))
+        # the same filter with a frame SHORTER than the DFT (odd / even frame lengths, zero-padded spectrum):
+        # oracle only (the spectrum is no longer the synthetic A)
+        for Lp in sorted({D - 1, D // 2 + 1, max(1, D - 2)}):
+            if not (1 <= Lp < D) or 2 ** int(np.ceil(np.log2(Lp))) != D:
+                continue
+            xp = np.asarray([r.randrange(-9, 10) for _ in range(Lp)], dtype=np.float64)
+            compp = STFTFrameComputer(bank, frame_length_ms=Lp, frame_shift_ms=Lp, frame_style="causal",
+                                      window_function=IntWindow(mode="ones"), use_log=False, use_power=False,
+                                      pad_to_nearest_power_of_two=True)
+            gp = compp.compute_full(xp)
+            wantp = float(np.sum(np.abs(np.fft.fft(xp, n=D) * H)))
+            ctx.count("walk_padded_frame")
+            if gp.shape != (1, 1) or not common.close(float(gp[0, 0]), wantp, rel=1e-9, abs_=1e-7):
+                ctx.violation(dict(case, frame_length=Lp, x=xp.tolist(), padded=True), wantp, gp.tolist(),
+                              "coefficient == full-spectrum sum with a zero-padded DFT (frame shorter than the DFT)",
+                              tags=dict(clause="full_spectrum_sum_padded", Lodd=bool(Lp % 2)))
         # correspondence: model hits -> expected integer
         if mo in ("bad-op",):
             ctx.mismatch(case, mo, vals[False], "driver rejected")
@@ -244,9 +260,11 @@ def library_oracle(ctx):
             continue
         D = int(2 ** np.ceil(np.log2(L))) if flags["pad_to_nearest_power_of_two"] else L
         N = r.choice([L // 2, L // 2 + 1, L, 2 * L + 5, r.randrange(L, 4 * L)])
-        x = np.random.RandomState(r.randrange(1 << 30)).randn(N)
+        # loud, quiet and silent signals (the log floor and the energy coefficient only matter when a frame is quiet)
+        level = r.choice([1.0, 1.0, 1e-2, 1e-4, 0.0])
+        x = np.random.RandomState(r.randrange(1 << 30)).randn(N) * level
         x.setflags(write=False)
-        case = dict(kind="library", bank=kind, scale=str(scale), num_filts=nf, rate=rate, low=lo, high=hi, L=L, S=S, D=D,
+        case = dict(kind="library", level=level, bank=kind, scale=str(scale), num_filts=nf, rate=rate, low=lo, high=hi, L=L, S=S, D=D,
                     style=style, kaldi=kaldi, window=wname, N=N, **flags)
         ctx.case(case, kind="library:" + kind)
         try:
